@@ -170,7 +170,9 @@ func groupID(name string) int {
 
 var lvMsgs = []string{"", "message one", "msg \"two\" = 2\n", "третье сообщение"}
 
-func lvMsg(m int) string { return lvMsgs[((m%len(lvMsgs))+len(lvMsgs))%len(lvMsgs)] + "#" + strconv.Itoa(m) }
+func lvMsg(m int) string {
+	return lvMsgs[((m%len(lvMsgs))+len(lvMsgs))%len(lvMsgs)] + "#" + strconv.Itoa(m)
+}
 
 func lvMsgID(s string) int {
 	i := strings.LastIndexByte(s, '#')
@@ -235,6 +237,12 @@ func (w *lvWorld) handler(h int) (*slogutil.LevelHandler, error) {
 
 // call performs one operation of LevelHandler.tla.
 func (w *lvWorld) call(op []any) (obs lvObs, herr error) {
+	// A panic of the code under test is an observation, not a harness failure.
+	defer func() {
+		if pv := recover(); pv != nil {
+			obs, herr = lvObs{Ret: fmt.Sprintf("panic: %v", pv), Calls: []lvCall{}}, nil
+		}
+	}()
 	w.cur = lvObs{Ret: "none"}
 	w.curRec = nil
 	ctx := context.WithValue(context.Background(), lvKey{}, len(w.hs))
@@ -381,6 +389,13 @@ func (w *lvWorld) probe(v *lvVec) (string, string) {
 		if id > len(v.Inn) || !reflect.DeepEqual(w.inners[id-1].path, v.Inn[id-1]) {
 			return fmt.Sprintf("handler %d context", i+1), fmt.Sprintf("the wrapped handler was derived by %+v, the specification says %+v", w.inners[id-1].path, v.Inn[id-1])
 		}
+		// A record handed to this handler reaches exactly its own inner object.
+		w.cur = lvObs{}
+		w.curRec, w.outcome = nil, "nil"
+		if err := h.Handle(w.curCtx, slog.NewRecord(fixedTime, slog.Level(-100), lvMsg(3), 0)); err != nil ||
+			len(w.cur.Calls) != 1 || w.cur.Calls[0] != (lvCall{K: "handle", In: want.In, X: -100, Y: 3}) {
+			return fmt.Sprintf("handler %d Handle", i+1), fmt.Sprintf("a record at level -100 led to the calls %+v (error %v), the specification says one Handle call on inner object %d", w.cur.Calls, err, want.In)
+		}
 		thr := v.LVar[want.Lev-1]
 		for _, l := range append([]int{thr - 1, thr, thr + 1}, probeLevels...) {
 			w.cur = lvObs{}
@@ -431,7 +446,11 @@ func replayLevel(args []string) error {
 			}
 		}
 		probes++
-		if where, what := w.probe(&v); where != "" {
+		var where, what string
+		if pv, panicked := vh.Try(func() { where, what = w.probe(&v) }); panicked {
+			where, what = "probing the handlers", fmt.Sprintf("panic: %v", pv)
+		}
+		if where != "" {
 			res.Mismatch(fmt.Sprintf("LevelHandler (inner handler enabled from %d): %s; then %s", v.IMin,
 				pathText(v.Steps, len(v.Steps)-1, func(s lvStep) []any { return s.Op }), where), what,
 				map[string]any{"family": "level", "vector": v, "step": len(v.Steps)})
